@@ -86,7 +86,8 @@ def infer_redirection(url, recursive=True):
                     target = None
 
             # Idiotic youtube redirections
-            elif "youtube.com/redirect?" in url:
+            # NOTE: a host can be written in any letter case
+            elif "youtube.com/redirect?" in url.lower():
                 target = "https://" + potential_target
 
     # NOTE: a relative target can resolve to the url itself, or to the url with
